@@ -124,6 +124,40 @@ theorem C12_close_completes (app : W → Op → W × Bool) (w0 : W) (ps : List (
   rw [run_append]
   exact finish_stops app _ (run_LockInv app w0 ps sched) (run_FlInv app w0 ps sched) hclosed
 
+/-- **After the flusher has stopped nothing reaches the wrapped cassette any more**: whatever callers still request (the
+rest of an operation that was running when the service closed the wrapper, a save included) stays in the buffer - the stored
+recordings are final.  So a recording cut in two by `close()` can only surface as what was requested before the close; the
+C05 tie (`asyncclose` family) checks on the real recorder that this is never a saved, unflagged recording. -/
+theorem C12_stopped_is_final (app : W → Op → W × Bool) (s : St W) (hs : s.fl = .stopped) (more : List Step) :
+    (run Cfg.code app s more).fl = .stopped ∧ (run Cfg.code app s more).applied = s.applied ∧
+    (run Cfg.code app s more).store = s.store := by
+  induction more generalizing s with
+  | nil => exact ⟨hs, rfl, rfl⟩
+  | cons st rest ih =>
+    have h1 : (step Cfg.code app s st).fl = .stopped ∧ (step Cfg.code app s st).applied = s.applied ∧
+        (step Cfg.code app s st).store = s.store := by
+      cases st with
+      | produce i =>
+        simp only [step]
+        split
+        · exact ⟨hs, rfl, rfl⟩
+        · split
+          · exact ⟨hs, rfl, rfl⟩
+          · exact ⟨hs, rfl, rfl⟩
+      | close =>
+        simp only [step]
+        split
+        · exact ⟨hs, rfl, rfl⟩
+        · exact ⟨hs, rfl, rfl⟩
+      | check => simp only [step, hs]; exact ⟨trivial, trivial, trivial⟩
+      | lock => simp only [step, hs]; exact ⟨trivial, trivial, trivial⟩
+      | swap => simp only [step, hs]; exact ⟨trivial, trivial, trivial⟩
+      | exec => simp only [step, hs]; exact ⟨trivial, trivial, trivial⟩
+      | timer => simp only [step, hs]; exact ⟨trivial, trivial, trivial⟩
+    have := ih (step Cfg.code app s st) h1.1
+    simp only [run, List.foldl_cons] at this ⊢
+    exact ⟨this.1, this.2.1.trans h1.2.1, this.2.2.trans h1.2.2⟩
+
 /-- A write that fails does not prevent later ones: whatever the wrapped cassette does (`app` is arbitrary, so any
 operations may raise), once the flusher has stopped the calls it received start with exactly the requests made before
 `close()`, each with its true outcome — a failing one is recorded with `false` and the following ones are still made. -/
